@@ -41,6 +41,11 @@ def run(ctx):
             check_call(ctx, f, b, cfg, drop_exits)
         check_role(ctx, f, cfg)
         check_clone(ctx, f, cfg)
+    # "so the resource's in-flight count returns to its previous value": exit() reaches the completion recorder, which lowers the
+    # count on every path (C04's recorder tables, on the core crate)
+    from . import rules_C04
+    fc = ctx.facts("core-default")
+    rules_C04.recorder(ctx, fc, "core-default")
     ctx.floor("C20.anchor", "impl tower::Service::call for SentinelService (two cfg variants)", n_impls, 2)
 
 
